@@ -4,11 +4,11 @@ _c21_flags = ['-fsanitize-address-field-padding=1',
               '-fsanitize-ignorelist=' + _os.path.join(_os.path.dirname(_os.path.abspath(_f)), 'c21_field_padding.ignorelist')]
 
 target('c21_instant', 'engines/ll/c21_lltiming.cpp', extra_src=LL_SRC, cxxflags=_c21_flags,
-       quick=dict(cases=160000, size=80), thorough=dict(cases=5000000, size=120, max_seconds=1500))
+       quick=dict(cases=400000, size=80), thorough=dict(cases=5000000, size=120, max_seconds=1500))
 target('c22_timing', 'engines/ll/c21_lltiming.cpp', extra_src=LL_SRC, cxxflags=_c21_flags,
-       quick=dict(cases=200000, size=80), thorough=dict(cases=4000000, size=120, max_seconds=1500))
+       quick=dict(cases=500000, size=80), thorough=dict(cases=4000000, size=120, max_seconds=1500))
 target('c23ll_latency', 'engines/ll/c21_lltiming.cpp', extra_src=LL_SRC, cxxflags=_c21_flags,
-       quick=dict(cases=120000, size=80), thorough=dict(cases=3000000, size=120, max_seconds=1500))
+       quick=dict(cases=300000, size=80), thorough=dict(cases=3000000, size=120, max_seconds=1500))
 
 _c21_common = ('link_layer<> (7 instantiated configurations: 6 peripheral latency configurations incl. a run-time configuration set, own sleep clock '
                'accuracies 0/20/50/100/250/500 ppm, buffers 61/61 and 100/100) runs under a harness-owned radio (derived from ll_data_pdu_buffer) and a '
